@@ -127,6 +127,8 @@ def run(ctx):
          {"VERIF_N": ctx.pick(100, 3000)}),
     ]
     for name, pkg, files, entry, env in runs:
+        if violations:
+            break       # already decided; do not spend another build on the second driver
         tb = goharness.overlay_test_build(ctx, pkg, files)
         out = os.path.join(tdir, "conf_%s.ndjson" % name)
         env = dict(env)
